@@ -59,9 +59,16 @@ function render(c) {
   const e = encode(c);
   const call = `defineComponent(${SETUPS[c.setup](e.type)})`;
   const strip = (d) => d.replace(/^export /, '');
-  if (c.scope === 'local') {
+  if (['local', 'localArrow', 'localFnExpr', 'localMethod', 'localIife'].includes(c.scope)) {
     const body = c.pos === 'before' ? `${e.decls.map(strip).join('\n  ')}\n  return ${call};` : `const r = ${call};\n  ${e.decls.map(strip).join('\n  ')}\n  return r;`;
-    return `${R.PRELUDE}function make() {\n  ${body}\n}\nexport const C = make();\n`;
+    const wrap = {
+      local: `function make() {\n  ${body}\n}\nexport const C = make();`,
+      localArrow: `const make = () => {\n  ${body}\n};\nexport const C = make();`,
+      localFnExpr: `const make = function () {\n  ${body}\n};\nexport const C = make();`,
+      localMethod: `const holder = { make() {\n  ${body}\n} };\nexport const C = holder.make();`,
+      localIife: `export const C = (() => {\n  ${body}\n})();`,
+    }[c.scope];
+    return `${R.PRELUDE}${wrap}\n`;
   }
   if (c.scope === 'mixed') {
     // parent declarations at module level, the rest next to the call inside a function
@@ -105,9 +112,9 @@ function spaces(tier) {
   return [
     {
       name: 'E:event-sets×encodings',
-      bounds: { names: NAMES, max_names: 3, encodings: ENC_KEYS, setup_forms: Object.keys(SETUPS), positions: ['before', 'after'], scopes: ['module', 'local (function)', 'mixed (parents at module level)'] },
+      bounds: { names: NAMES, max_names: 3, encodings: ENC_KEYS, setup_forms: Object.keys(SETUPS), positions: ['before', 'after'], scopes: ['module', 'function declaration', 'arrow', 'function expression', 'object method', 'IIFE', 'mixed (parents at module level)'] },
       *gen() {
-        for (const names of nameSets()) for (const enc of ENC_KEYS) for (const setup of Object.keys(SETUPS)) for (const scope of ['module', 'local', 'mixed']) for (const pos of (scope === 'mixed' ? ['before'] : ['before', 'after'])) {
+        for (const names of nameSets()) for (const enc of ENC_KEYS) for (const setup of Object.keys(SETUPS)) for (const scope of ['module', 'local', 'localArrow', 'localFnExpr', 'localMethod', 'localIife', 'mixed']) for (const pos of (scope === 'mixed' ? ['before'] : ['before', 'after'])) {
           if (tier !== 'thorough' && setup !== 'arrow' && !(scope === 'module' && pos === 'before')) continue;
           yield { sp: 'E', names, enc, setup, scope, pos };
         }
